@@ -17,20 +17,55 @@ theorem grantsL_append_notGranted (ws : List Waiter) (w : Waiter) (h : w.st ≠ 
 
 /-- queueing behind the pool semaphore moves no slot (it only happens when the semaphore is locked, which an
 unbounded semaphore without waiters never is) -/
-theorem good0_waitRoom {cap : Cap} {L : Bool} (p : Pool) (m) (hg : Good0 cap L p) (hl : p.sem.locked = true) :
-    Good0 cap L (p.waitRoom m) := by
+theorem good0_waitRoom {cap : Cap} {L R : Bool} (p : Pool) (m) (hg : Good0 cap L R p) (hl : p.sem.locked = true) :
+    Good0 cap L R (p.waitRoom m) := by
   have facts : (p.waitRoom m).sem.value = p.sem.value ∧ grantsL (p.waitRoom m).sem.waiters = grantsL p.sem.waiters ∧
       (p.waitRoom m).tasks = p.tasks ∧ (p.waitRoom m).running = p.running ∧ (p.waitRoom m).cancelledR = p.cancelledR ∧
       (p.waitRoom m).ended = p.ended ∧ (p.waitRoom m).lost = p.lost ∧ (p.waitRoom m).groups = p.groups ∧
-      (p.waitRoom m).apis = p.apis ∧ (p.waitRoom m).gathers = p.gathers := by
+      (p.waitRoom m).apis = p.apis ∧ (p.waitRoom m).gathers = p.gathers ∧ (p.waitRoom m).resized = p.resized := by
     unfold waitRoom
     simp only
     split <;> simp_all [grantsL, List.countP_append, schedMeta, emitRef, modReq]
-  obtain ⟨f1, f2, f3, f4, f5, f6, f7, f8, f9, f10⟩ := facts
+  obtain ⟨f1, f2, f3, f4, f5, f6, f7, f8, f9, f10, f11⟩ := facts
   refine ⟨?_, fun i tk h hn => hg.phase i tk (by rw [← f3]; exact h) hn, hg.reg.of_eq f3 f4 f5 f6 f7,
     hg.grp.of_eq f8 (by rw [f3]), hg.life.of_eq f3 f7,
-    hg.fl.frame f10 f9 (fun t ⟨tk, a, b⟩ => ⟨tk, by rw [f3]; exact a, b⟩),
-    (hg.strict.of_eq f7 f9).1, (hg.strict.of_eq f7 f9).2⟩
+    hg.fl.frame f10 f9 (fun t ⟨tk, a, b⟩ => ⟨tk, by rw [f3]; exact a, b⟩), ?_,
+    (hg.strict.of_eq f7 f9 f11).rz, (hg.strict.of_eq f7 f9 f11).ll, (hg.strict.of_eq f7 f9 f11).al⟩
+  rotate_left
+  · -- the semaphore was locked: with a free slot and nothing granted there would have been a pending waiter already
+    intro hr v hv hpos hgr w hw hp
+    have hsem : (p.waitRoom m).sem.value = p.sem.value ∧
+        ∃ w0 : Waiter, (p.waitRoom m).sem.waiters = p.sem.waiters ++ [w0] ∧ w0.st ≠ .granted ∧ (p.waitRoom m).resized = p.resized := by
+      unfold waitRoom
+      simp only
+      split
+      · exact ⟨rfl, _, rfl, by simp, rfl⟩
+      · exact ⟨rfl, _, rfl, by simp, rfl⟩
+    obtain ⟨e1, w0, e2, hw0, e3⟩ := hsem
+    rw [e1] at hv
+    rw [e3] at hr
+    have hgr0 : grantsL p.sem.waiters = 0 := by rw [← f2]; exact hgr
+    have hnp := hg.wk hr v hv hpos hgr0
+    -- locked with a positive counter: some waiter is not cancelled
+    have : ∃ w1 ∈ p.sem.waiters, w1.st ≠ .cancelled := by
+      unfold Sem.locked at hl
+      simp only [hv, Cap.isZero, Bool.or_eq_true, List.any_eq_true] at hl
+      rcases hl with h0 | ⟨w1, hm, hne⟩
+      · have : v = 0 := by
+          cases v with
+          | zero => rfl
+          | succ n => simp at h0
+        omega
+      · exact ⟨w1, hm, by simpa using hne⟩
+    obtain ⟨w1, hm1, hne1⟩ := this
+    have hnp1 := hnp w1 hm1
+    have hng1 : w1.st ≠ .granted := by
+      intro e
+      have : 0 < grantsL p.sem.waiters := by
+        unfold grantsL
+        exact List.countP_pos_iff.mpr ⟨w1, hm1, by simp [e]⟩
+      omega
+    cases hst : w1.st <;> simp_all
   cases cap with
   | fin n =>
     obtain ⟨v, hv, hs⟩ := hg.slot
@@ -124,16 +159,16 @@ theorem _root_.Taskpool.GroupsOK.create {p : Pool} (hr : GroupsOK p) (g : String
     · exact Nat.lt_succ_of_lt (hr.lt i h)
 
 /-- appending a fresh task in phase `created` -/
-theorem good0_createTask_afterTake {cap : Cap} {L : Bool} (p : Pool) (m : Nat) (isMap : Bool)
-    (hph : PhaseOK p) (hreg : RegOK p) (hgrp : GroupsOK p) (hlife : LifeOK p) (hpre : SlotPre cap p) (hst : Strict L p)
-    (hfl : FlushOK p) :
-    Good0 cap L (p.createTask m isMap) := by
+theorem good0_createTask_afterTake {cap : Cap} {L R : Bool} (p : Pool) (m : Nat) (isMap : Bool)
+    (hph : PhaseOK p) (hreg : RegOK p) (hgrp : GroupsOK p) (hlife : LifeOK p) (hpre : SlotPre cap p) (hst : Strict L R p)
+    (hfl : FlushOK p) (hwk : WakeOK p) :
+    Good0 cap L R (p.createTask m isMap) := by
   unfold createTask
   simp only
   refine ⟨?_, ?_, hreg.create _ rfl _ rfl rfl rfl rfl rfl, hgrp.create _ _ _ rfl rfl, ?_,
     hfl.frame rfl rfl (fun t ⟨tk, a, b⟩ => ⟨tk, by
       show (p.tasks ++ _)[t]? = some tk
-      rw [List.getElem?_append_left (List.getElem?_eq_some_iff.mp a).1]; exact a, b⟩), hst.1, hst.2⟩
+      rw [List.getElem?_append_left (List.getElem?_eq_some_iff.mp a).1]; exact a, b⟩), hwk.of_eq rfl rfl, hst.rz, hst.ll, hst.al⟩
   rotate_left 2
   · intro i tk' h
     simp only [emitRef_tasks, modReq_tasks] at h
@@ -221,14 +256,21 @@ theorem mapOK_createTask {p : Pool} {m : Nat} (isMap : Bool) (h : MapMid p m (if
     case hr2 => rfl
     case hy => rfl
 
-theorem good_takeSlotAndCreate {cap : Cap} {L : Bool} (p : Pool) (m : Nat) (isMap : Bool) (hg : Good0 cap L p)
+theorem good_takeSlotAndCreate {cap : Cap} {L R : Bool} (p : Pool) (m : Nat) (isMap : Bool) (hg : Good0 cap L R p)
     (hmap : MapMid p m (if isMap then 1 else 0)) (hlt : m < p.reqs.length)
-    (hl : p.sem.locked = false) : Good cap L (p.takeSlotAndCreate m isMap) := by
+    (hl : p.sem.locked = false) : Good cap L R (p.takeSlotAndCreate m isMap) := by
   unfold takeSlotAndCreate
   refine ⟨good0_createTask_afterTake _ m isMap (fun i tk h hn => hg.phase i tk h hn)
-    (hg.reg.of_eq rfl rfl rfl rfl rfl) (hg.grp.of_eq rfl rfl) (hg.life.of_eq rfl rfl) ?_ hg.strict
-    (hg.fl.frame rfl rfl (fun _ h => h)),
+    (hg.reg.of_eq rfl rfl rfl rfl rfl) (hg.grp.of_eq rfl rfl) (hg.life.of_eq rfl rfl) ?_ (hg.strict.of_eq rfl rfl)
+    (hg.fl.frame rfl rfl (fun _ h => h)) ?_,
     mapOK_createTask isMap (hmap.of_eq rfl rfl) hlt⟩
+  rotate_left
+  · -- not locked: every waiter still in the queue is cancelled
+    intro _ v _ _ _ w hw hp
+    unfold Sem.locked at hl
+    simp only [Bool.or_eq_false_iff, List.any_eq_false] at hl
+    have := hl.2 w hw
+    simp [hp] at this
   cases cap with
   | fin n =>
     obtain ⟨v, hv, hs⟩ := hg.slot
@@ -240,8 +282,8 @@ theorem good_takeSlotAndCreate {cap : Cap} {L : Bool} (p : Pool) (m : Nat) (isMa
     simp [hv, hw, Cap.dec]
 
 /-- `_apply_spawner`/`_start_num` from any position -/
-theorem good_applyLoop {cap : Cap} {L : Bool} (m n : Nat) (p : Pool) (hg : Good cap L p)
-    (hk : ReqAt p m (fun r => r.kind = .apply)) (hlt : m < p.reqs.length) : Good cap L (applyLoop m n p) := by
+theorem good_applyLoop {cap : Cap} {L R : Bool} (m n : Nat) (p : Pool) (hg : Good cap L R p)
+    (hk : ReqAt p m (fun r => r.kind = .apply)) (hlt : m < p.reqs.length) : Good cap L R (applyLoop m n p) := by
   induction n generalizing p with
   | zero =>
     unfold applyLoop
@@ -249,7 +291,7 @@ theorem good_applyLoop {cap : Cap} {L : Bool} (m n : Nat) (p : Pool) (hg : Good 
   | succ n ih =>
     unfold applyLoop
     simp only
-    have hg0 : Good cap L (p.modReq m fun x => { x with remaining := n + 1 }) := (tame_modReq p m _).good hg
+    have hg0 : Good cap L R (p.modReq m fun x => { x with remaining := n + 1 }) := (tame_modReq p m _).good hg
     have hk0 : ReqAt (p.modReq m fun x => { x with remaining := n + 1 }) m (fun r => r.kind = .apply) :=
       hk.modReq _ (fun _ h => h)
     have hlt0 : m < (p.modReq m fun x => { x with remaining := n + 1 }).reqs.length := by simpa [modReq] using hlt
@@ -269,9 +311,9 @@ theorem good_applyLoop {cap : Cap} {L : Bool} (m n : Nat) (p : Pool) (hg : Good 
               (reqAt_takeSlotAndCreate hk0 false (fun _ h => h)) ?_
             rw [reqsLen_takeSlotAndCreate]; exact hlt0
 
-theorem good_mapStartTask {cap : Cap} {L : Bool} (p : Pool) (m : Nat) (hg : Good0 cap L p) (hmap : MapMid p m 1)
+theorem good_mapStartTask {cap : Cap} {L R : Bool} (p : Pool) (m : Nat) (hg : Good0 cap L R p) (hmap : MapMid p m 1)
     (hlt : m < p.reqs.length) (hacq : ReqAt p m (fun r => r.acquired = true)) :
-    Good cap L (p.mapStartTask m).1 ∧ p.reqs.length ≤ (p.mapStartTask m).1.reqs.length := by
+    Good cap L R (p.mapStartTask m).1 ∧ p.reqs.length ≤ (p.mapStartTask m).1.reqs.length := by
   unfold mapStartTask
   split
   · exact ⟨(tame_finishMeta p m _).good ⟨hg, hmap.ok⟩, (tame_finishMeta p m _).rql⟩
@@ -305,8 +347,8 @@ theorem mapMid_takeMapSlot {p : Pool} {m : Nat} (h : MapOK p)
   rw [hp, hw]; omega
 
 /-- `_arg_consumer` from any position, argument iterator (user code) included -/
-theorem good_mapLoop {cap : Cap} {L : Bool} (m : Nat) (items : List Item) (p : Pool) (hg : Good cap L p)
-    (hlt : m < p.reqs.length) : Good cap L (mapLoop m items p) := by
+theorem good_mapLoop {cap : Cap} {L R : Bool} (m : Nat) (items : List Item) (p : Pool) (hg : Good cap L R p)
+    (hlt : m < p.reqs.length) : Good cap L R (mapLoop m items p) := by
   induction items generalizing p with
   | nil =>
     unfold mapLoop
@@ -322,7 +364,7 @@ theorem good_mapLoop {cap : Cap} {L : Bool} (m : Nat) (items : List Item) (p : P
     · split
       · exact (tame_waitMapSem _ m).good hg0
       · rename_i hl
-        have hg1 : Good0 cap L ((p.pullItem m rest).takeMapSlot m) := (tame0_modReq _ m _).good0 hg0.toGood0
+        have hg1 : Good0 cap L R ((p.pullItem m rest).takeMapSlot m) := (tame0_modReq _ m _).good0 hg0.toGood0
         have hm1 := mapMid_takeMapSlot (m := m) hg0.map (by simpa using hl)
         have hlt1 : m < ((p.pullItem m rest).takeMapSlot m).reqs.length := by simpa [takeMapSlot, modReq] using hlt0
         have hacq : ReqAt ((p.pullItem m rest).takeMapSlot m) m (fun r => r.acquired = true) :=
@@ -332,8 +374,8 @@ theorem good_mapLoop {cap : Cap} {L : Bool} (m : Nat) (items : List Item) (p : P
         · exact ih _ hg2 (Nat.lt_of_lt_of_le hlt1 hle)
         · exact hg2
 
-theorem good_continueSpawner {cap : Cap} {L : Bool} (p : Pool) (m : Nat) (hg : Good cap L p) (hlt : m < p.reqs.length) :
-    Good cap L (p.continueSpawner m) := by
+theorem good_continueSpawner {cap : Cap} {L R : Bool} (p : Pool) (m : Nat) (hg : Good cap L R p) (hlt : m < p.reqs.length) :
+    Good cap L R (p.continueSpawner m) := by
   unfold continueSpawner
   simp only
   split
